@@ -215,6 +215,7 @@ fn main() {
             reg_enum!(jobs, "mod_limb_alphabet", enum_alphabet_triples, body; [65, 127, 128, 129, 190, 192]);
             w_all!(reg_gen!(jobs, "mod", 12000, strat, body;));
             reg_gen!(jobs, "mod", 1000, strat, body; [1024]);
+            reg_gen!(jobs, "mod", 150, strat, body; [2112]);
         },
         |_| Map::new(),
     );
